@@ -38,7 +38,7 @@ NSHARDS = {'quick': 16, 'thorough': 16}
 RULE += (' Directed probes: the scope of +IGNORE_EXCEPTION_DETAIL by carrier placement (block, behind code, on opening / closing line of a multi-line statement, next to comment-only and empty continuation lines, on the raising statement itself); an earlier want-less statement raising the documented exception; output printed before an expected exception; outcome exceptions of pytest.')
 
 KINDS = ['builtin', 'builtin_called', 'user', 'user_called', 'dotted', 'module', 'coroutine', 'assert', 'noted', 'syntax',
-         'group', 'chained', 'indent', 'taberror']
+         'group', 'chained', 'indent', 'taberror', 'nameerror_near']
 MSGS = {'empty': None, 'plain': 'some detail', 'colons': 'a: b: c', 'multi': 'line1\nline2', 'dots': 'pre ... post',
         # an error relayed from elsewhere: the message quotes another traceback
         'relayed': 'worker failed\nTraceback (most recent call last):\nValueError: inner'}
@@ -120,6 +120,10 @@ def raising_source(kind, msg):
         return [], 'compile("  x = 1", %s, "exec")' % (m or '"<s>"')
     if kind == 'taberror':
         return [], 'compile("if 1:\\n\\tx = 1\\n        y = 2\\n", %s, "exec")' % (m or '"<s>"')
+    if kind == 'nameerror_near':
+        # a NameError for a name that has a close neighbour in the doctest's namespace: the interpreter's traceback display
+        # adds a suggestion ("Did you mean ...?"), the exception's own message does not hold it
+        return ['total_count_zz = 3'], 'total_coun_zz + 1'
     if kind == 'group':
         return [], 'raise ExceptionGroup(%s, [ValueError(1), KeyError(2)])' % (m or '"eg"')
     if kind == 'chained':
@@ -173,6 +177,8 @@ def build(kind, mk, pos, wf, flags, ctxno):
     line, ename = true_line(kind, msg)
     ied, ell, igw = flags
     pre, src = raising_source(kind, msg)
+    if kind == 'nameerror_near':
+        msg = 'given by the interpreter'        # (the message does not depend on the message dimension: never empty)
     L = []
     dirs = []
     if ied:
